@@ -305,6 +305,17 @@ def _mentions(tree, var):
     return var in vars_in(tree)
 
 
+def check_open_gc_order(ctx):
+    """The collector computes its delete list under the mutex and unlinks
+    without it; at open that is safe only because no background work was
+    scheduled yet (a compaction started earlier may be handed the number of an
+    orphan file that the stale list is about to unlink)."""
+    f = ctx.fn("ldb_open", DB)
+    never_after(ctx, "T1-gc-before-background", "open", f, lambda e: is_call(e, "ldb_maybe_schedule_compaction"),
+                lambda e: is_call(e, "ldb_remove_obsolete_files"),
+                "the open-time collection runs before the first background work is scheduled")
+
+
 def check_pinning(ctx):
     P = ctx.P
     check_cache_pins(ctx)
@@ -406,6 +417,7 @@ def check_allocator(ctx):
 
 
 def check(ctx):
+    check_open_gc_order(ctx)
     from . import c14
     c14.check_level_loops(ctx)     # the live set covers every level
     check_gc(ctx)
